@@ -190,6 +190,19 @@ def scenarios(tier, seed):
                     continue     # H must belong to a step that is applied before B's step
                 trees.append(exprkit.relabel(('bin', B, X(1), ('bin', H, ('un', s, X(2)), X(3)))))
             trees.append(exprkit.relabel(('bin', B, X(1), ('un', s, ('un', '-', X(2))))))
+    # targeted family: openers of the same / different kinds nested directly inside each other (depth 3 and 4), alone and inside a larger expression
+    def wrap(kind, t):
+        return ('par', t) if kind == 'par' else ('fn', kind, [t])
+    kinds = ['par', 'sin', 'sqrt']
+    for a in kinds:
+        for b in kinds:
+            for c in kinds:
+                inner = ('bin', '+', X(1), X(2))
+                trees.append(exprkit.relabel(wrap(a, wrap(b, wrap(c, X(1))))))
+                trees.append(exprkit.relabel(('bin', '*', X(1), wrap(a, ('bin', '-', wrap(b, wrap(c, inner)), X(4))))))
+    trees.append(exprkit.relabel(wrap('par', wrap('par', wrap('par', wrap('par', X(1)))))))
+    trees.append(exprkit.relabel(('fn', 'pow', [wrap('par', wrap('par', X(1))), wrap('par', wrap('par', wrap('par', X(2))))])))
+    trees.append(exprkit.relabel(('un', '!', wrap('par', wrap('par', wrap('par', ('bin', '<', X(1), X(2))))))))
     trees = [t for t in trees if not exprkit.fn_of_bool(t)]
     S = []
     for i, t in enumerate(trees):
